@@ -1,6 +1,6 @@
 # table consumed by tools_manifest.py
 ENGINES = [
-    {"name": "vv", "path": "vv/", "serves_properties": ["C05", "C07", "C09", "C13", "C17", "C18", "C19"], "kind_free_text": "runtime monitors: generators, independent flatbuffer reader/writer, compile drivers, sharded worker harness, evidence/findings"},
+    {"name": "vv", "path": "vv/", "serves_properties": ["C05", "C06", "C07", "C09", "C13", "C15", "C17", "C18", "C19"], "kind_free_text": "runtime monitors: generators, independent flatbuffer reader/writer, compile drivers, sharded worker harness, evidence/findings"},
 ]
 NOTES = ("Technique family: runtime monitoring and sanitizers. Every check runs the real code from /repo's working tree (codec rebuilt from the C "
          "sources on every run) under generated workloads with oracles observing executions; verdicts are violated / held-on-what-was-observed / "
@@ -64,3 +64,22 @@ check("C07", "exploration",
       "vectors run through clang ASan+UBSan builds (with and without -DNDEBUG) of mlw_encode.c+mlw_decode.c; out-of-range probes must be rejected or round-trip.",
       "Sanitizers only see the vectors driven (red-zone detection); the reference decoder is cross-checked against the repository's C decoder each run.",
       "ASan/UBSan instrumented builds + round-trip reference-decoder monitor", "DESIGN.md 4/C07")
+
+check("C06", "exploration",
+      "Reference-model monitor on the emitted words: random legal operation lists (conv, depthwise, 3 pooling modes, 10 elementwise modes, DMA; 5 data types, both layouts, "
+      "1-4 tiles, explicit strides, upscaling, table activations, 1 and 2 cores) with histories built to maximise register elision (single-field variants, repeats, A,B,A) go "
+      "through api.npu_generate_register_command_stream; an independent decoder tracks the architectural register file and an independent expected-register model is compared "
+      "field by field at every NPU_OP (regions, 4 bases, tiles, strides, shapes, zero points, precisions, kernel/stride/dilation bits, padding, per-core weight/scale ranges, "
+      "activation, scaling, block config, IFM2 broadcast/scalar, DMA), SHRAM registers against the C15 oracle; structural clauses (one STOP last, waits attached); five classes "
+      "of illegal input must raise; every stream of real compilations is decoded and compared with the API objects the pipeline built.",
+      "The expected-register model is my reading of the ISA (DESIGN Appendix A); pooling OFM_SCALE is not re-derived; ops for which no block config exists are skipped.",
+      "runtime trace decoding + reference-model monitor", "DESIGN.md 4/C06")
+
+check("C15", "exploration",
+      "Contract on the public block-config query and on emitted registers: for random conv/depthwise/pool/elementwise requests x 6 accelerators every config offered by "
+      "api.npu_find_block_configs must be a positive micro-block multiple within 32x64x128, be accepted by the command-stream generator for that operation, and the "
+      "IFM_IB_END / IFM2_IB_START / AB_START / ACC_FORMAT registers the generator emits for it must describe ordered, non-overlapping partitions inside the bank count, "
+      "outside the LUT banks when a table is used, each holding two blocks at the bank granule (independent SHRAM arithmetic from frozen tables); the same oracle runs on every "
+      "kernel operation of real compilations.",
+      "Minimum IFM block / granule tables are frozen hardware facts as I read them; 'large enough' is a >= test.",
+      "runtime contract on query results + register oracle", "DESIGN.md 4/C15")
